@@ -109,6 +109,8 @@ fn worker_configs(tier: Tier) -> Vec<(SysCfg, usize)> {
         prefix: true,
         error: true,
         adversarial: true,
+        fork: false,
+        store_call_prune: true,
         head_variants: true,
         header_sub: true,
         prune: true,
@@ -126,6 +128,7 @@ fn worker_configs(tier: Tier) -> Vec<(SysCfg, usize)> {
         oracles: Oracles { c24: true, c25: false, c38: false },
         tail_events: 40,
         max_events: 60,
+        aging: None,
     };
     let b = tier.pick(3, 4);
     vec![
@@ -189,7 +192,7 @@ fn main() {
         &ctx,
         rep,
         Spec {
-            rule: "E1: all 2^N synced sets over heights off+1..=off+N (N=10 quick, 12 thorough; off in {0, u64::MAX-N}) x head in {0} ∪ off..=off+N+1 x limit in {0,1,2,3,5,N,N+1,u64::MAX}, distinct = (set, off, head, limit), non-trivial = non-empty synced set and non-empty result; E3: envdfs on the real Syncer+InMemoryStore+mocked P2p with <= 3 (quick) / <= 4 (thorough) non-default environment choices on config old6-batch4 and one less on old6-batch4-prefilled-9-12 and all-in-window-batch7, menu = union of the C25 and C38 menus (answers honest/prefix/first-only/error/fork/splices/empty, head answers honest/stale/advanced/error, header-sub next/skip, prune any stored out-of-window height, disconnect/reconnect, 61 s), every announced batch and every header-ex range request checked against the store at that moment",
+            rule: "E1: all 2^N synced sets over heights off+1..=off+N (N=10 quick, 12 thorough; off in {0, u64::MAX-N}) x head in {0} ∪ off..=off+N+1 x limit in {0,1,2,3,5,N,N+1,u64::MAX}, distinct = (set, off, head, limit), non-trivial = non-empty synced set and non-empty result; E3: envdfs on the real Syncer+InMemoryStore+mocked P2p with <= 3 (quick) / <= 4 (thorough) non-default environment choices on config old6-batch4 and one less on old6-batch4-prefilled-9-12 and all-in-window-batch7, menu = union of the C25 and C38 menus (answers honest/prefix/first-only/error/fork/splices/empty, head answers honest/stale/advanced/error, header-sub next/skip, prune any stored out-of-window height [as an event at quiescence and as a choice point right before each get_stored_header_ranges / get_pruned_ranges / get_by_height / insert call of the syncer], disconnect/reconnect, 61 s), every announced batch and every header-ex range request checked against the store at that moment",
             assumptions: &[
                 "the network head of the statement is read as max(subjective head, highest synced height): synced headers are verified network headers, so a subjective head below them (possible after a restart with a lagging trusted peer) does not make the gap below the highest synced range 'above the network head'",
                 "maximal batch size is not demanded (the statement says 'at most the batch size'), only non-emptiness whenever missing insertable heights exist and limit >= 1",
@@ -203,6 +206,7 @@ fn main() {
                 "cov:batches-checked",
                 "cov:header-requests-checked",
                 "cov:prunes",
+                "cov:prunes-between-store-calls",
             ],
             exhaustive: true,
         },
